@@ -34,10 +34,15 @@ def t_big_state(x=0, *a, **k):
 STATES = ['never-used', 'results-unread', 'inputs-queued', 'closed', 'died-by-exception', 'killed', 'uncooperative', 'killed-mid-final-message']
 
 
+def expected_userid(state):
+    return 0 if STATES.index(state) % 2 == 0 else 42
+
+
 def prepare(kind, sess, state, supplied_pipe):
     """create a persistent worker and bring it into `state`; returns (worker, info)"""
     from pyworkers.utils import Pipe
-    kw = dict(args=[0, 'T'], name=f'w-{kind}', userid=42)
+    # falsy-but-meaningful constructor options must survive a restart too (userid 0 is what Pool gives its first worker)
+    kw = dict(args=[0, 'T'], name=f'w-{kind}', userid=expected_userid(state), set_names=False)
     if supplied_pipe:
         kw['results_pipe'] = Pipe()
     target = t_neg_raises
@@ -85,8 +90,8 @@ def check_fresh(ctx, kind, state, w, old_id, step, supplied, desc):
     if not alive:
         ctx.fail(f'not-alive-after-restart:{tag}', f'{kind} worker in state {state}: not alive after restart #{step}', desc)
         return False
-    if (w.name, w.userid) != (f'w-{kind}', 42):
-        ctx.fail(f'ctor-args-lost:{tag}', f'{kind}: after restart name/userid are {(w.name, w.userid)}', desc)
+    if (w.name, w.userid, getattr(w, '_set_names', None)) != (f'w-{kind}', expected_userid(state), False):
+        ctx.fail(f'ctor-args-lost:{tag}', f'{kind}: after restart name/userid/set_names are {(w.name, w.userid, getattr(w, "_set_names", None))} instead of {(f"w-{kind}", expected_userid(state), False)}', desc)
     if kind != 'thread' and w.id == old_id:
         ctx.fail(f'identity-not-new:{tag}', f'{kind}: same child identity {w.id} after restart', desc)
     if kind != 'thread' and old_id is not None:
